@@ -1,5 +1,6 @@
 import WindVerif.Proofs.Sorted
 import WindVerif.Proofs.SortedCopy
+import WindVerif.Proofs.SortedMixins
 /-!
 # C09 — SortedSet / SortedMap stay sorted, duplicate-free and equivalent to set / dict
 
@@ -192,5 +193,149 @@ example : mapInit (mapItems (mapInit [(5, 1), (2, 7), (5, 3)])) = mapInit [(5, 1
 
 example : Strict (setInit [3, 1, 3, 2]) ∧ setInit (setInit [3, 1, 3, 2]) = setInit [3, 1, 3, 2] :=
   ⟨setInit_strict _, setInit_of_strict _ (setInit_strict _)⟩
+
+/-! ### The inherited `collections.abc` interface (`Mapping` / `MutableMapping`, the views, `Set` / `MutableSet`)
+
+Models in `Model/SortedMixins.lean` (the mixin methods as CPython 3.12 `_collections_abc.py` writes them, on top of the
+primitive operations), proofs in `Proofs/SortedMixins.lean`.  The other operand of a set operation is a builtin set, given
+as the duplicate-free list of its elements in its iteration order. -/
+
+/-- `get(key, default)` is the dict lookup, or the default; the default for a foreign-typed key -/
+theorem mapGetD_spec (m : SMap) (d : Nat) (h : MapWf m) :
+    (∀ k, mapGetD m (.num k) d = (mapLookup m k).getD d) ∧ mapGetD m .foreign d = d := by
+  first | exact WindVerif.Sorted.mapGetD_spec .. | (apply WindVerif.Sorted.mapGetD_spec <;> assumption)
+
+/-- `pop(key, default)` of an absent key (also of a foreign-typed one): the state is unchanged, the default comes back -/
+theorem mapPopD_absent (m : SMap) (d : Nat) (h : MapWf m) :
+    (∀ k, mapLookup m k = none → mapPopD m (.num k) d = (m, d)) ∧ mapPopD m .foreign d = (m, d) := by
+  first | exact WindVerif.Sorted.mapPopD_absent .. | (apply WindVerif.Sorted.mapPopD_absent <;> assumption)
+
+/-- `pop(key, default)` of a present key is `del m[key]` and returns the value: the new state is well formed and stands for
+the dict without the key -/
+theorem mapPopD_present (m : SMap) (k : Int) (v d : Nat) (h : MapWf m) (hk : mapLookup m k = some v) :
+    ∃ m', mapDel m (.num k) = .ok m' ∧ mapPopD m (.num k) d = (m', v) ∧ MapWf m' ∧
+      ∀ k', mapLookup m' k' = if k' = k then none else mapLookup m k' := by
+  first | exact WindVerif.Sorted.mapPopD_present .. | (apply WindVerif.Sorted.mapPopD_present <;> assumption)
+
+/-- `key in m.keys()` -/
+theorem mapKeysContains_iff (m : SMap) (h : MapWf m) :
+    (∀ k, mapKeysContains m (.num k) = true ↔ (mapLookup m k).isSome = true) ∧
+    mapKeysContains m .foreign = false := by
+  first | exact WindVerif.Sorted.mapKeysContains_iff .. | (apply WindVerif.Sorted.mapKeysContains_iff <;> assumption)
+
+/-- `(key, value) in m.items()` -/
+theorem mapItemsContains_iff (m : SMap) (v : Nat) (h : MapWf m) :
+    (∀ k, mapItemsContains m (.num k) v = true ↔ mapLookup m k = some v) ∧
+    mapItemsContains m .foreign v = false := by
+  first | exact WindVerif.Sorted.mapItemsContains_iff .. | (apply WindVerif.Sorted.mapItemsContains_iff <;> assumption)
+
+/-- `value in m.values()` -/
+theorem mapValuesContains_iff (m : SMap) (v : Nat) (h : MapWf m) :
+    mapValuesContains m v = true ↔ ∃ k, mapLookup m k = some v := by
+  first | exact WindVerif.Sorted.mapValuesContains_iff .. | (apply WindVerif.Sorted.mapValuesContains_iff <;> assumption)
+
+/-- iterating the items view yields the items in key order -/
+theorem mapIterItems_eq (m : SMap) (h : MapWf m) : mapIterItems m = mapItems m := by
+  first | exact WindVerif.Sorted.mapIterItems_eq .. | (apply WindVerif.Sorted.mapIterItems_eq <;> assumption)
+
+/-- `m == d` for a dict `d` (given by its items, distinct keys) holds exactly when both stand for the same finite map -/
+theorem mapEq_iff (m : SMap) (other : List (Int × Nat)) (h : MapWf m) (ho : (other.map (·.1)).Nodup) :
+    mapEq m other = true ↔ ∀ k, mapLookup m k = other.lookup k := by
+  first | exact WindVerif.Sorted.mapEq_iff .. | (apply WindVerif.Sorted.mapEq_iff <;> assumption)
+
+/-- `clear()` (a loop of `popitem`) empties the map; `len + 1` rounds of the loop suffice -/
+theorem mapClear_spec (m : SMap) (h : MapWf m) :
+    mapClear (m.keys.length + 1) m = ⟨[], []⟩ ∧ MapWf (mapClear (m.keys.length + 1) m) := by
+  first | exact WindVerif.Sorted.mapClear_spec .. | (apply WindVerif.Sorted.mapClear_spec <;> assumption)
+
+/-- in a well-formed state the only error `self[key]` can give is `KeyError` (the mixins catch nothing else) -/
+theorem mapGet_error_wf (m : SMap) (p : Probe) (e : Err) (h : MapWf m) (he : mapGet m p = .error e) :
+    e = .keyError := by
+  first | exact WindVerif.Sorted.mapGet_error_wf .. | (apply WindVerif.Sorted.mapGet_error_wf <;> assumption)
+
+/-- after `self[key]` succeeded, `del self[key]` succeeds (in any state) -/
+theorem mapDel_ok_of_get_ok (m : SMap) (p : Probe) (v : Nat) (h : mapGet m p = .ok v) :
+    ∃ m', mapDel m p = .ok m' := by
+  first | exact WindVerif.Sorted.mapDel_ok_of_get_ok .. | (apply WindVerif.Sorted.mapDel_ok_of_get_ok <;> assumption)
+
+/-- `s <= t` -/
+theorem setLe_iff (s t : List Int) (h : Strict s) : setLe s t = true ↔ ∀ y, y ∈ s → y ∈ t := by
+  first | exact WindVerif.Sorted.setLe_iff .. | (apply WindVerif.Sorted.setLe_iff <;> assumption)
+
+/-- `s == t` -/
+theorem setEq_iff (s t : List Int) (h : Strict s) (ht : t.Nodup) : setEq s t = true ↔ ∀ y, y ∈ s ↔ y ∈ t := by
+  first | exact WindVerif.Sorted.setEq_iff .. | (apply WindVerif.Sorted.setEq_iff <;> assumption)
+
+/-- `s.isdisjoint(t)` -/
+theorem setIsDisjoint_iff (s t : List Int) (h : Strict s) :
+    setIsDisjoint s t = true ↔ ∀ y, ¬ (y ∈ s ∧ y ∈ t) := by
+  first | exact WindVerif.Sorted.setIsDisjoint_iff .. | (apply WindVerif.Sorted.setIsDisjoint_iff <;> assumption)
+
+/-- `s & t` -/
+theorem setAnd_spec (s t : List Int) (h : Strict s) :
+    Strict (setAnd s t) ∧ ∀ y, y ∈ setAnd s t ↔ (y ∈ s ∧ y ∈ t) := by
+  first | exact WindVerif.Sorted.setAnd_spec .. | (apply WindVerif.Sorted.setAnd_spec <;> assumption)
+
+/-- `s | t` -/
+theorem setOr_spec (s t : List Int) :
+    Strict (setOr s t) ∧ ∀ y, y ∈ setOr s t ↔ (y ∈ s ∨ y ∈ t) := by
+  first | exact WindVerif.Sorted.setOr_spec .. | (apply WindVerif.Sorted.setOr_spec <;> assumption)
+
+/-- `s - t` -/
+theorem setSub_spec (s t : List Int) :
+    Strict (setSub s t) ∧ ∀ y, y ∈ setSub s t ↔ (y ∈ s ∧ y ∉ t) := by
+  first | exact WindVerif.Sorted.setSub_spec .. | (apply WindVerif.Sorted.setSub_spec <;> assumption)
+
+/-- `s ^ t` -/
+theorem setXor_spec (s t : List Int) (h : Strict s) :
+    Strict (setXor s t) ∧ ∀ y, y ∈ setXor s t ↔ ((y ∈ s ∧ y ∉ t) ∨ (y ∈ t ∧ y ∉ s)) := by
+  first | exact WindVerif.Sorted.setXor_spec .. | (apply WindVerif.Sorted.setXor_spec <;> assumption)
+
+/-- `s |= t` (element-wise `add`) -/
+theorem setIor_spec (s t : List Int) (h : Strict s) :
+    Strict (setIor s t) ∧ ∀ y, y ∈ setIor s t ↔ (y ∈ s ∨ y ∈ t) := by
+  first | exact WindVerif.Sorted.setIor_spec .. | (apply WindVerif.Sorted.setIor_spec <;> assumption)
+
+/-- `s &= t` (element-wise `discard` of `s - t`) -/
+theorem setIand_spec (s t : List Int) (h : Strict s) :
+    Strict (setIand s t) ∧ ∀ y, y ∈ setIand s t ↔ (y ∈ s ∧ y ∈ t) := by
+  first | exact WindVerif.Sorted.setIand_spec .. | (apply WindVerif.Sorted.setIand_spec <;> assumption)
+
+/-- `s -= t` (element-wise `discard`) -/
+theorem setIsub_spec (s t : List Int) (h : Strict s) :
+    Strict (setIsub s t) ∧ ∀ y, y ∈ setIsub s t ↔ (y ∈ s ∧ y ∉ t) := by
+  first | exact WindVerif.Sorted.setIsub_spec .. | (apply WindVerif.Sorted.setIsub_spec <;> assumption)
+
+/-- `s ^= t` (element-wise `discard` / `add`; the elements of a set come once) -/
+theorem setIxor_spec (s t : List Int) (h : Strict s) (ht : t.Nodup) :
+    Strict (setIxor s t) ∧ ∀ y, y ∈ setIxor s t ↔ ((y ∈ s ∧ y ∉ t) ∨ (y ∈ t ∧ y ∉ s)) := by
+  first | exact WindVerif.Sorted.setIxor_spec .. | (apply WindVerif.Sorted.setIxor_spec <;> assumption)
+
+/-- the in-place operators leave exactly the list the pure operator builds -/
+theorem setIor_eq (s t : List Int) (h : Strict s) : setIor s t = setOr s t := by
+  first | exact WindVerif.Sorted.setIor_eq .. | (apply WindVerif.Sorted.setIor_eq <;> assumption)
+
+theorem setIand_eq (s t : List Int) (h : Strict s) : setIand s t = setAnd s t := by
+  first | exact WindVerif.Sorted.setIand_eq .. | (apply WindVerif.Sorted.setIand_eq <;> assumption)
+
+theorem setIsub_eq (s t : List Int) (h : Strict s) : setIsub s t = setSub s t := by
+  first | exact WindVerif.Sorted.setIsub_eq .. | (apply WindVerif.Sorted.setIsub_eq <;> assumption)
+
+theorem setIxor_eq (s t : List Int) (h : Strict s) (ht : t.Nodup) : setIxor s t = setXor s t := by
+  first | exact WindVerif.Sorted.setIxor_eq .. | (apply WindVerif.Sorted.setIxor_eq <;> assumption)
+
+/-- non-vacuity: concrete states meet the hypotheses, and the in-place operators computed on them -/
+example : MapWf ⟨[1, 2, 5], [7, 6, 7]⟩ ∧ mapLookup ⟨[1, 2, 5], [7, 6, 7]⟩ 2 = some 6 ∧ mapLookup ⟨[1, 2, 5], [7, 6, 7]⟩ 3 = none := by
+  refine ⟨by simp [MapWf, Strict], by decide, by decide⟩
+example : mapGetD ⟨[1, 2, 5], [7, 6, 7]⟩ (.num 3) 9 = 9 ∧ mapGetD ⟨[1, 2, 5], [7, 6, 7]⟩ .foreign 9 = 9 ∧
+    mapGetD ⟨[1, 2, 5], [7, 6, 7]⟩ (.num 2) 9 = 6 ∧ (mapPopD ⟨[1, 2, 5], [7, 6, 7]⟩ (.num 2) 9).2 = 6 ∧
+    (mapPopD ⟨[1, 2, 5], [7, 6, 7]⟩ (.num 2) 9).1.keys = [1, 5] ∧ mapValuesContains ⟨[1, 2, 5], [7, 6, 7]⟩ 6 = true ∧
+    mapItemsContains ⟨[1, 2, 5], [7, 6, 7]⟩ (.num 5) 7 = true ∧ (mapClear 4 ⟨[1, 2, 5], [7, 6, 7]⟩).keys = [] := by decide
+example : ([(5, 7), (1, 7), (2, 6)].map (·.1)).Nodup ∧ dictEq [(1, 7), (2, 6), (5, 7)] [(5, 7), (1, 7), (2, 6)] = true := by decide
+example : Strict [1, 3, 4] ∧ [4, 9, 3].Nodup := by refine ⟨by simp [Strict], by decide⟩
+example : setLe [1, 3] [3, 4, 1] = true ∧ setEq [1, 3] [3, 1] = true ∧ setIsDisjoint [1, 3] [2, 4] = true ∧
+    setIor [1, 3, 4] [4, 9, 3] = [1, 3, 4, 9] ∧ setIsub [1, 3, 4] [4, 9, 3] = [1] ∧ setIxor [1, 3, 4] [4, 9, 3] = [1, 9] := by decide
+example : setIand [1, 3, 4] [4, 9, 3] = setAnd [1, 3, 4] [4, 9, 3] ∧ setIxor [1, 3, 4] [4, 9, 3] = setXor [1, 3, 4] [4, 9, 3] :=
+  ⟨setIand_eq _ _ (by simp [Strict]), setIxor_eq _ _ (by simp [Strict]) (by decide)⟩
 
 end WindVerif.C09
